@@ -26,6 +26,9 @@ enum Derived {
     Dev,
     #[px(profile = "prd")]
     Prod,
+    /// never selected: it makes the declaration order of the names (dev, prd, ci) differ from their
+    /// alphabetical order, and puts an un-annotated variant after the annotated one
+    Ci,
 }
 impl std::str::FromStr for Prof {
     type Err = String;
@@ -36,6 +39,7 @@ impl std::str::FromStr for Prof {
         match s.parse::<Derived>() {
             Ok(Derived::Dev) => Ok(Prof::Dev),
             Ok(Derived::Prod) => Ok(Prof::Prod),
+            Ok(Derived::Ci) => Err("a profile nobody asked for".to_string()),
             Err(e) => Err(e.to_string()),
         }
     }
